@@ -137,20 +137,15 @@ Section MainS.
   Let fragTypes := map (fun f => (fr_name f, fr_cond f)) frs.
   Variable en : name -> name.
   Variable cn : name -> name -> name.
-  Variables Keys Dash : list name.
-  Hypothesis HDash : forall k, In k Dash -> starts_uu k = false.
-  Hypothesis HComp : incl (composites S) Dash.
   (** the Go name of an enum type is not a keyword *)
   Hypothesis Hen : forall n n' vs, lookup_type S n = Some (DEnum n' vs) -> go_keyword (en n) = false.
   Notation gen := (gen_named_s S fragTypes en cn).
-  Notation SelsInD := (SelsIn Keys Dash).
 
   (** the program declares, for every fragment, the type the generator makes of its definition *)
   Definition frags_gen_s (P : program) : Prop :=
     forall fr, In fr frs ->
       exists core fuel st st',
         gen fuel (fr_cond fr) (fr_sels fr) st = Ok (core, true, st') /\
-        SelsInD (fr_sels fr) /\
         lookup_def P (frag_type_name (fr_name fr)) = Some (type_def (frag_type_name (fr_name fr)) core) /\
         type_syntax_ok core = true.
   Notation GoodS := (GoodDP S frags_gen_s).
@@ -220,11 +215,11 @@ Section MainS.
       returns a good type *)
   Lemma gen_good_s : forall N sels, sels_size sels < N ->
     forall fuel mm st core b st' f',
-      all_structs S (env_local S frs) f' mm sels = true -> SelsInD sels ->
+      all_structs S (env_local S frs) f' mm sels = true ->
       gen fuel mm sels st = Ok (core, b, st') ->
       b = true /\ ExtS st st' /\ TyOKS frs st' core /\ GoodS mm sels core /\ struct_like core.
   Proof.
-    induction N as [|N IH]; intros sels Hsz fuel mm st core b st' f' Ha Hsel Hg; [lia|].
+    induction N as [|N IH]; intros sels Hsz fuel mm st core b st' f' Ha Hg; [lia|].
     destruct fuel as [|fuel]; [discriminate|]. destruct f' as [|f']; [discriminate|].
     rewrite all_structs_S in Ha. apply andb_true_iff in Ha as [Hel Hall].
     pose proof (env_local_elim _ _ _ _ Hel) as [Hc [Hkeys [Hnd [Htn Hloc]]]].
@@ -253,7 +248,6 @@ Section MainS.
         pose proof (Hloc _ Hs) as Hsl. simpl in Hsl. rewrite Htnf, Eft, Eu in Hsl.
         destruct (composite S mm') eqn:Ecomp.
         + rewrite <- Esub in Has.
-          assert (Hsi : SelsInD sub) by (rewrite Esub; apply SelsIn_merged_field; exact Hsel).
           destruct (IH sub) with (fuel := fuel) (mm := mm') (st := st0) (core := core0) (b := b0) (st' := st0') (f' := f')
             as (H1 & H2 & H3 & H4 & _); try assumption.
           * rewrite Esub. pose proof (merged_field_size_lt (sel_key a f) sels a f sub1 Hs eq_refl). lia.
@@ -268,7 +262,6 @@ Section MainS.
           subst sub. rewrite Esn in Hg0 |- *.
           apply (gen_leaf_good_s fuel mm' st0 core0 b0 st0' Hleaf Ecomp Hg0).
       - pose proof (Hall _ Hs) as Has. cbv beta iota zeta in Has. rewrite <- Emm, <- Esub in Has.
-        assert (Hsi : SelsInD sub) by (rewrite Esub; apply SelsIn_merged_inline; exact Hsel).
         destruct (IH sub) with (fuel := fuel) (mm := mm') (st := st0) (core := core0) (b := b0) (st' := st0') (f' := f')
           as (H1 & H2 & H3 & H4 & _); try assumption.
         + rewrite Esub. pose proof (merged_size_lt mm mm' sels c sub0 Hs (eq_sym Emm)). lia.
@@ -296,12 +289,6 @@ Section MainS.
       by (apply (gname_inj fields I1 Hkind)).
     assert (Hext : forall k T dash, In (k, (T, dash)) fields -> exists us, nm k = field_name (untk k) ++ us /\ all_us us = true)
       by (apply (gname_ext fields I1 Hkind)).
-    assert (Huu : forall k T, In (k, (T, true)) fields -> starts_uu (untk k) = false).
-    { intros k T H. apply HDash. destruct (F3 _ _ _ H) as [[Hdd _]|[[_ [c0 [s0 [Hs0 [Ek _]]]]]|[_ [f0 [c0 [b0 [Hs0 [Ek _]]]]]]]]; [discriminate| |]; subst k; cbn [untk tk tl].
-      - destruct c0 as [c'|]; simpl.
-        + destruct (SelsIn_inline Keys Dash _ _ _ Hs0 Hsel) as [_ Hc']. apply Hc'. reflexivity.
-        + apply HComp. apply (composite_In S mm d Hl). destruct d; try contradiction; exact I.
-      - apply (SelsIn_spread Keys Dash _ _ _ _ Hs0 Hsel). }
     assert (Efs : sort_fields (map (mk_field_s names) fields) = sort_fields (map (mk_field_f nm) fields))
       by (f_equal; apply map_ext; intros e; apply mk_field_s_f).
     rewrite Efs in Hgc.
@@ -333,13 +320,13 @@ Section MainS.
       intros P HP Hsyn. split.
       - intros l Hl'. rewrite (composite_not_leaf_s mm Hc) in Hl'. discriminate.
       - intros tn rfs Hconf. rewrite Ecore in *.
-        apply (ClientGenDecodeS.composite_decodes S frs HS mm d sels fields conds frags_gen_s I1 F3 F4 F5 I6 Hl nm Hnm Hext Huu Hloc Htn Hnd Hkeys idx P HP Hsyn); [|exact Hconf].
+        apply (ClientGenDecodeS.composite_decodes S frs HS mm d sels fields conds frags_gen_s I1 F3 F4 F5 I6 Hl nm Hnm Hext Hloc Htn Hnd Hkeys idx P HP Hsyn); [|exact Hconf].
         (* spreads: the declared fragment type decodes by the induction hypothesis *)
         intros F c body Hs tn0 rfs0 Hc0.
         pose proof (Hloc _ Hs) as Hsl. simpl in Hsl. apply andb_true_iff in Hsl as [_ Hsl].
         destruct (find_frag frs F) as [fr|] eqn:Ef; [|discriminate]. apply andb_true_iff in Hsl as [Ec Eb].
         apply bytes_eqb_true in Ec. apply sels_eqb_eq in Eb. destruct (find_frag_In_s _ _ Ef) as [Hfr En].
-        destruct (HP fr Hfr) as [coreF [fuelF [stF [stF' [HgF [HsiF [HlF HsF]]]]]]]. rewrite Eb in HsiF.
+        destruct (HP fr Hfr) as [coreF [fuelF [stF [stF' [HgF [HlF HsF]]]]]].
         rewrite Ec, Eb in HgF. rewrite En in HlF.
         rewrite forallb_forall in Hall. pose proof (Hall _ Hs) as Has. cbv beta iota in Has.
         destruct (IH body) with (fuel := fuelF) (mm := c) (st := stF) (core := coreF) (b := true) (st' := stF') (f' := f')
@@ -360,9 +347,6 @@ Section ProcessS.
   Let fragTypes := map (fun f => (fr_name f, fr_cond f)) frs.
   Variable en : name -> name.
   Variable cn : name -> name -> name.
-  Variables Keys Dash : list name.
-  Hypothesis HDash : forall k, In k Dash -> starts_uu k = false.
-  Hypothesis HComp : incl (composites S) Dash.
   Hypothesis Hen : forall n n' vs, lookup_type S n = Some (DEnum n' vs) -> go_keyword (en n) = false.
   Notation gen := (gen_named_s S fragTypes en cn).
   Variable fuel : nat.
@@ -370,7 +354,6 @@ Section ProcessS.
   Definition def_ok_s (def : option name * list selection * option name) : Prop :=
     exists r dn, fst (fst def) = Some r /\ snd def = Some dn /\
                  all_structs S (env_local S frs) (sel_fuel (snd (fst def))) r (snd (fst def)) = true /\
-                 SelsIn Keys Dash (snd (fst def)) /\
                  sels_size (snd (fst def)) < fuel.
 
   Definition def_res_s (st' : gstate) (def : option name * list selection * option name) (td : typedefn) : Prop :=
@@ -378,7 +361,7 @@ Section ProcessS.
       fst (fst def) = Some r /\ snd def = Some dn /\
       gen fuel r (snd (fst def)) st0 = Ok (core, true, st0') /\ td = type_def dn core /\
       ExtS S en st0' st' /\ TyOKS frs st0' core /\
-      GoodDP S (frags_gen_s S frs en cn Keys Dash) r (snd (fst def)) core /\ struct_like core.
+      GoodDP S (frags_gen_s S frs en cn) r (snd (fst def)) core /\ struct_like core.
 
   Lemma process_defs_ok_s defs : forall st out,
     Forall def_ok_s defs ->
@@ -388,12 +371,12 @@ Section ProcessS.
   Proof.
     induction defs as [|[[root sels] dname] rest IH]; intros st out Hok.
     - exists st, []. rewrite app_nil_r. split; [reflexivity|]. split; [apply (ExtS_refl S en) | constructor].
-    - inversion Hok as [|? ? [r [dn [Hr [Hdn [Ha [Hsi Hsz]]]]]] Hok']; subst. cbn [fst snd] in Hr, Hdn, Ha, Hsi, Hsz. subst root dname.
+    - inversion Hok as [|? ? [r [dn [Hr [Hdn [Ha Hsz]]]]] Hok']; subst. cbn [fst snd] in Hr, Hdn, Ha, Hsz. subst root dname.
       cbn [process_defs_s].
       destruct (gen_total_s S frs HS en cn fuel r sels st (sel_fuel sels) Ha Hsz) as [core [st1 Hg]].
       fold fragTypes in Hg. rewrite Hg.
-      destruct (gen_good_s S frs HS en cn Keys Dash HDash HComp Hen (Datatypes.S (sels_size sels)) sels (Nat.lt_succ_diag_r _)
-                           fuel r st core true st1 (sel_fuel sels) Ha Hsi Hg) as (_ & Hext & Hty & Hgood & Hsl).
+      destruct (gen_good_s S frs HS en cn Hen (Datatypes.S (sels_size sels)) sels (Nat.lt_succ_diag_r _)
+                           fuel r st core true st1 (sel_fuel sels) Ha Hg) as (_ & Hext & Hty & Hgood & Hsl).
       destruct (IH st1 (out ++ [type_def dn core]) Hok') as [st' [outs [Hp [Hext' Hres]]]].
       exists st', (type_def dn core :: outs). split; [rewrite Hp, <- app_assoc; reflexivity|].
       split; [apply ((ExtS_trans S en) _ _ _ Hext Hext')|].
